@@ -603,6 +603,83 @@ def half_open_backlog_case(run, pv, hook_log):
             pc.safe_disconnect(conn)
 
 
+def second_connection_stalled_case(run, pv, hook_log):
+    """Two Connection objects in one process.  B is stalled: its peer accepts
+    and never reads while B has megabytes to write (its networking thread sits
+    in a blocking send).  A's server stops in the middle of a frame.  A must
+    still terminate and report - what B is doing is none of A's business."""
+    from minecraft.networking import connection as C
+    from minecraft.networking.packets import serverbound
+    import threading as _th
+    codec = codec_for(pv)
+    release = _th.Event()
+    state = {}
+
+    def handler_b(io):
+        scripts.read_handshake(io)
+        scripts.login_offline(io, pv, None, codec)
+        state['b_play'] = True
+        release.wait(40.0)              # never reads again
+
+    def handler_a(io):
+        scripts.read_handshake(io)
+        scripts.login_offline(io, pv, None, codec)
+        state['a_play'] = True
+        state['go'].wait(20.0)
+        kid, kp = codec.encode('cb_keep_alive', {'id': 77})
+        frame = io.encode_frame(kid, kp)
+        io.send_raw(frame[:len(frame) - 2])          # stops inside the frame
+        io.close()
+    state['go'] = _th.Event()
+    srv_a, srv_b = mcserver.Server(handler_a), mcserver.Server(handler_b)
+    rec_a, rec_b = pc.Recorder(), pc.Recorder()
+    a = b = None
+    w = {'scenario': 'second-connection-stalled', 'pv': pv}
+    try:
+        b = pc.make_connection(srv_b.port, rec_b, allowed_versions={pv})
+        b.vf_sndbuf = 32768
+        a = pc.make_connection(srv_a.port, rec_a, allowed_versions={pv})
+        b.connect()
+        a.connect()
+        if not pc.wait_for(lambda: state.get('a_play') and state.get('b_play')
+                           and isinstance(a.reactor, C.PlayingReactor)
+                           and isinstance(b.reactor, C.PlayingReactor), 10.0):
+            return None, 'sessions never reached play'
+        blob = b'x' * 30000
+        for i in range(300):                             # ~9 MB for B
+            b.write_packet(serverbound.play.PluginMessagePacket(
+                channel='vf:bulk', data=blob))
+        import time
+        time.sleep(0.3)                 # B's thread is now blocked in send()
+        del hook_log[:]
+        state['go'].set()
+        done = pc.wait_idle(a, 15.0)
+        run.count('second_connection_stalled_cases')
+        if not done:
+            run.violation('eof/blocked-by-another-connection', 'the server of '
+                          'connection A stopped inside a frame, but A\'s '
+                          'networking thread neither terminated nor reported:'
+                          ' it waits for something held by connection B, '
+                          'which is stalled on its own peer', dict(
+                              w, where=pc.dump_threads()[-900:]))
+        elif not rec_a.exceptions and not hook_log:
+            run.violation('eof/silent/second-connection-stalled', 'the stream '
+                          'ended inside a frame and no error was reported',
+                          dict(w, exits=rec_a.exits))
+        else:
+            run.count('errors_reported')
+        return 'ok', w
+    finally:
+        release.set()
+        for io in list(srv_b.connections):
+            io.close(abrupt=True)
+        srv_a.stop()
+        srv_b.stop()
+        for c in (a, b):
+            if c is not None:
+                pc.safe_disconnect(c)
+
+
 def forced_write_after_close_case(run, pv, hook_log):
     """The server sends a complete packet and closes; the client first
     notices through a *forced write made inside a listener*, which fails.  That
@@ -709,8 +786,9 @@ def run(run):
                                              % (pv, info))
         for vi, (pv, default_pv) in enumerate(versions):
             for fi, fn in enumerate((half_open_backlog_case,
-                                     forced_write_after_close_case)):
-                if not run.mine(910000 + 2 * vi + fi):
+                                     forced_write_after_close_case,
+                                     second_connection_stalled_case)):
+                if not run.mine(910000 + 3 * vi + fi):
                     continue
                 res = None
                 for attempt in range(2):
@@ -783,4 +861,5 @@ def run(run):
     run.require('cuts_with_reset', 10)
     run.require('refused_after_status', 1)
     run.require('half_open_backlog_cases', 1)
+    run.require('second_connection_stalled_cases', 1)
     run.require('forced_write_after_close_cases', 1)
